@@ -856,8 +856,7 @@ def run_normalize(case, rep):
         s = var["size"]
         ds.add_variable(var["name"], s, lower_bound=lb[o:o + s].copy(), upper_bound=ub[o:o + s].copy())
         o += s
-    sparse = tree["fmt"].startswith("sparse:")
-    if sparse:
+    if jac_kind(fn, phys[0]):
         rep.count("normalize_cases_sparse_coefficients")
     sig = helper_sig("MDOLinearFunction.normalize", fn, phys[0])
     state = OperandState([fn], phys)
@@ -1654,12 +1653,86 @@ def directed_cases():
             for opts in ({}, {"scale": 2.0, "indices": [1]}, {"scale": [2.0, 3.0]}):
                 out.append({"kind": "helper", "helper": "aggregation", "method": method, "n": 3, "tree": sp, "options": opts,
                             "points": [[0.3, -0.2, 0.5], [0.0, 0.4, -1.0]]})
+    out.extend(sparse_audit_cases())
     half_norm2 = _poly_leaf([[0.5, 0.5, 0.5], [-0.5, -0.5, -0.5]], [[2, 0, 0], [0, 2, 0], [0, 0, 2]], "vec")
     out.append({"kind": "helper", "helper": "convex_linear", "n": 3, "tree": half_norm2, "x0": [1.0, 1.0, -2.0], "mask": [False, True, True],
                 "points": [[1.0, 1.0, -2.0], [2.0, 2.0, -1.0], [0.5, 3.0, -4.0]]})
     out.append({"kind": "helper", "helper": "convex_linear", "n": 3, "tree": _lin_leaf([[1.0, -2.0, 3.0], [4.0, 5.0, -6.0]], [1.0, 2.0]),
                 "x0": [1.0, 1.0, 1.0], "mask": None,
                 "points": [[1.0, 1.0, 1.0], [3.0, 3.0, 3.0], [0.5, 2.0, 1.5]]})
+    return out
+
+
+def sparse_audit_cases():
+    """Every helper applied to every kind of tree whose Jacobian comes out as a sparse container.
+
+    Flavours (sparray and spmatrix twins): a sparse leaf (csr), sparse+sparse and sparse-sparse (csr), sparse*number and
+    sparse/number (csr), sparse*sparse, sparse/sparse (the quotient rule returns a coo container), negation and offset
+    (MDOLinearFunction with sparse coefficients created by gemseo), vector- and scalar-valued.
+    """
+    out = []
+    x3 = [[1.0, 2.0, 3.0], [0.5, -1.0, 0.5], [-1.0, -2.0, -0.5]]
+    x2 = [[1.0, 2.0], [-1.0, 0.5]]
+    for arr, mat in (("csr_array", "lil_array"), ("csr_matrix", "dok_matrix")):
+        def lin(A, b, fmt):
+            return {"op": "leaf", "f": {"kind": "linear", "A": A, "b": b}, "fmt": "sparse:" + fmt}
+
+        sp, sp2 = lin([[2.0, 0.0, -1.0], [0.0, 3.0, 4.0]], [5.0, -7.0], arr), lin([[1.0, 0.5, 0.0], [0.0, 0.0, 2.0]], [9.0, 8.0], mat)
+        s1, s2 = lin([[0.0, -2.0, 0.5]], [0.5], arr), lin([[1.0, 0.0, 0.25]], [6.0], mat)
+        flavours = {}
+        for tag, a, b in (("vector", sp, sp2), ("scalar", s1, s2)):
+            flavours[f"leaf-{tag}"] = a
+            flavours[f"sum-{tag}"] = {"op": "+", "a": a, "b": b}
+            flavours[f"difference-{tag}"] = {"op": "-", "a": a, "b": b}
+            flavours[f"times-number-{tag}"] = {"op": "*", "a": a, "b": {"op": "num", "v": 2.5}}
+            flavours[f"over-number-{tag}"] = {"op": "/", "a": a, "b": {"op": "num", "v": 2.5}}
+            flavours[f"product-{tag}"] = {"op": "*", "a": a, "b": b}
+            flavours[f"quotient-{tag}"] = {"op": "/", "a": a, "b": {"op": "offset", "a": b, "v": 5}}
+            flavours[f"neg-quotient-{tag}"] = {"op": "neg", "a": {"op": "/", "a": a, "b": {"op": "offset", "a": b, "v": 5}}}
+            flavours[f"negation-{tag}"] = {"op": "neg", "a": a}
+            flavours[f"offset-{tag}"] = {"op": "offset", "a": a, "v": [1.5] * go.out_dim(a)}
+        import copy
+
+        for name, tree in flavours.items():
+            def t():
+                return copy.deepcopy(tree)
+
+            linear_object = name.split("-")[0] in ("leaf", "negation", "offset")  # still an MDOLinearFunction
+            base = {"kind": "helper", "n": 3, "audit": f"{arr}:{name}"}
+            out.append(dict(base, helper="restriction", tree=t(), frozen_idx=[0, 1], frozen_val=[0.5, -1.0], points=[[3.0], [0.5]]))
+            out.append(dict(base, helper="restriction", tree=t(), frozen_idx=[1], frozen_val=[7.0], points=x2))
+            out.append(dict(base, helper="restricted_function", tree=t(), frozen_idx=[1], frozen_val=[7.0], points=x2))
+            out.append(dict(base, helper="restricted_function", tree=t(), frozen_idx=[0, 2], frozen_val=[0.5, -1.0], points=[[3.0], [0.5]]))
+            out.append(dict(base, helper="linear_composition", tree=t(), matrix=[[1.0, 2.0], [0.0, 1.0], [3.0, -1.0]], points=x2))
+            out.append({"kind": "helper", "helper": "concatenation", "n": 3, "audit": f"{arr}:{name}", "trees": [t(), t()], "points": x3})
+            out.append({"kind": "helper", "helper": "concatenation", "n": 3, "audit": f"{arr}:{name}",
+                        "trees": [t(), _poly_leaf([[1.0, 2.0, 3.0]], [[1, 0, 0], [0, 1, 0], [0, 0, 1]], "float")], "points": x3})
+            out.append(dict(base, helper="taylor_linear", tree=t(), x0=x3[0], points=x3))
+            out.append(dict(base, helper="convex_linear", tree=t(), x0=[1.0, 1.0, -2.0], mask=None, points=[[1.0, 1.0, -2.0], [2.0, 0.5, -1.0]]))
+            out.append(dict(base, helper="convex_linear", tree=t(), x0=[1.0, 1.0, -2.0], mask=[True, False, True],
+                            points=[[1.0, 1.0, -2.0], [2.0, 0.5, -1.0]]))
+            if name.endswith("scalar"):
+                out.append(dict(base, helper="taylor_quadratic", tree=t(), x0=x3[0], points=x3,
+                                hessian=[[2.0, 1.0, 0.0], [1.0, 3.0, 0.5], [0.0, 0.5, 1.0]]))
+            else:
+                for method in AGG:
+                    for opts in ({}, {"scale": [2.0, 3.0]}, {"indices": [1], "scale": 2.0}):
+                        out.append(dict(base, helper="aggregation", method=method, tree=t(), options=opts, points=x3[:2]))
+            if linear_object:
+                out.append(dict(base, helper="linear_restrict", tree=t(), frozen_idx=[1], frozen_val=[7.0], points=x2))
+                out.append(dict(base, helper="normalize", tree=t(), points=[[1 / 6, 0.45, 0.75], [0.0, 1.0, 0.5]],
+                                variables=[{"name": "x", "size": 3, "lb": [1.0, -2.0, 0.5], "ub": [4.0, 3.0, 2.5]}]))
+    # a dense function divided by a sparse-*matrix* linear function: the quotient rule returns a numpy.matrix, which the
+    # first-order Taylor polynomial cannot turn into an MDOLinearFunction (consequence of the operator makers)
+    s3 = _poly_leaf([[1.0, -2.0, 0.5]], [[1, 0, 0], [0, 1, 0], [0, 0, 1]], "float")
+    sm1 = {"op": "leaf", "f": {"kind": "linear", "A": [[1.0, 0.0, 0.25]], "b": [6.0]}, "fmt": "sparse:coo_matrix"}
+    out.append({"kind": "helper", "helper": "taylor_linear", "n": 3, "audit": "coo_matrix:dense-over-sparse-matrix-scalar",
+                "tree": {"op": "+", "a": {"op": "/", "a": s3, "b": {"op": "offset", "a": sm1, "v": 5}}, "b": {"op": "num", "v": -1.5}},
+                "x0": x3[0], "points": x3})
+    pts3 = [np.array(q) for q in x3]
+    for case in out:
+        for tree in ([case["tree"]] if "tree" in case else case["trees"]):
+            ref.sanitize_denominators(tree, pts3 + [np.array([1.0, 1.0, -2.0]), np.array([2.0, 0.5, -1.0])])
     return out
 
 
@@ -1716,13 +1789,45 @@ RUNNERS = {
 WEIGHT = {"aggregation": 4, "discipline": 3, "convex_linear": 2}
 
 
-def run_case(case, rep):
+def _run_case(case, rep):
     if case["kind"] == "tree":
         run_tree_case(case, rep)
     elif case["kind"] == "symbolic":
         run_symbolic_case(case, rep)
     else:
         RUNNERS[case["helper"]](case, rep)
+
+
+def _densified(obj):
+    """Deep copy of a case in which every sparse linear leaf hands dense coefficients to gemseo."""
+    if isinstance(obj, dict):
+        out = {k: _densified(v) for k, v in obj.items()}
+        if out.get("op") == "leaf" and str(out.get("fmt", "")).startswith("sparse:"):
+            out["fmt"] = "native"
+        return out
+    if isinstance(obj, list):
+        return [_densified(v) for v in obj]
+    return obj
+
+
+def run_case(case, rep):
+    """Run a case; a ``...:sparse-jacobian`` violation is followed by the dense twin of the case.
+
+    ``C10:<site>:sparse-jacobian`` means "numpy-only code of <site> met a sparse operand Jacobian".  The twin (same case,
+    dense coefficients) decides whether sparsity explains the violation: if the site is also wrong with dense operands,
+    the twin reports it under the site's ordinary signature, so a defect of the site that is not a matter of container
+    is never absorbed by the sparse signature.
+    """
+    before = dict(rep.violation_counts)
+    _run_case(case, rep)
+    if case.get("dense_twin"):
+        return
+    if any(k.endswith(":sparse-jacobian") and v > before.get(k, 0) for k, v in rep.violation_counts.items()):
+        rep.count("dense_twins_run_after_a_sparse_violation")
+        n0 = sum(rep.violation_counts.values())
+        _run_case(dict(_densified(case), dense_twin=True), rep)
+        if sum(rep.violation_counts.values()) == n0:
+            rep.count("sparse_violations_explained_by_the_container")
 
 
 def run_shard(spec, rep):
@@ -1819,8 +1924,10 @@ _QUICK_MIN = {
     "operand_snapshots_compared_after_helper": 2100, "operand_snapshots_compared_after_evaluating_result": 2000,
     "operator_nodes_with_sparse_operand_jacobian": 1600,
 }
-MIN_COUNTERS["quick"] = dict(_QUICK_MIN)
+_DIRECTED_MIN = 1000  # shard 0 of both tiers: the deterministic cases (they alone print every known sparse signature)
+MIN_COUNTERS["quick"] = dict(_QUICK_MIN, directed_cases=_DIRECTED_MIN)
 MIN_COUNTERS["thorough"] = {
     k: int(v * (14 if k.startswith("symbolic") else 20 if k.startswith(("trees", "nodes", "operator", "operand_imm")) else 28))
     for k, v in _QUICK_MIN.items()
 }
+MIN_COUNTERS["thorough"]["directed_cases"] = _DIRECTED_MIN
